@@ -154,6 +154,23 @@ PROPS = {
             dict(test="TestC14Prop", kind="rapid", checks={Q: 300, T: 10000}, shards=16),
         ],
     ),
+    "C07": dict(
+        pkg="c07", level="exploration",
+        technique="property-based testing (rapid) of hap.Connection.Read over a scripted net.Conn (harness-owned segmentation, idle periods and caller buffers) with the reference sealer as sender and an exact byte-stream + promptness oracle; exhaustive split offsets of two-frame streams",
+        level_text=("Generated search over message sequences, the peer's framing (maximal or arbitrary frame sizes), segmentations of the ciphertext stream (frames split at any offset, several frames per segment), idle periods between segments and caller buffer sizes. "
+                    "The scripted conn never blocks and has no clock: a Read either gets the next piece or a net.Error time-out. Oracles: bytes returned are exactly the next bytes of the plaintext; never io.EOF or a decryption error; a call returns data whenever a completely delivered frame is unread and never waits for the network in that situation. "
+                    "Every split offset of all two-frame streams with frame sizes {1,2,1023,1024} is enumerated in thorough (every 7th in quick)."),
+        level_note="Trusted: refctl sealer, the scripted conn. Zero-length frames are not sent (a conformant sender has no reason to). 'Waiting for the network' is observed as consuming a scripted idle period.",
+        rule=("rapid scenarios: 1..4 messages with lengths from {1..40, 512, 1023..1025, 2047..2049, 3072, 4095..4097, 8192, 1..5000}, optional arbitrary frame sizes, segmentation (per frame / single segment / up to 8 arbitrary cuts), up to 4 idle periods, 1..4 caller buffer sizes from {1,2,512,1024,4096,8192,random}. "
+              "Non-trivial: some frame split across segments, or frames sharing a segment, or an idle period inside a frame, or a message length that is a multiple of 1024 or of the caller buffer. Distinct by scenario."),
+        assumptions=["the peer sends well-formed frames of 1..1024 plaintext bytes and stays connected"],
+        essential_classes=["split-frame", "coalesced", "timeout-inside-frame", "len-multiple-of-1024", "len-multiple-of-buffer", "multi-frame-message", "regress"],
+        jobs=[
+            dict(test="TestC07Regress", kind="plain"),
+            dict(test="TestC07Splits", kind="plain", shards={Q: 4, T: 16}),
+            dict(test="TestC07Prop", kind="rapid", checks={Q: 1500, T: 50000}, shards=12),
+        ],
+    ),
 }
 
 # reasons for properties not claimed yet (kept current while the framework is being built)
